@@ -7,6 +7,9 @@ package main
 //   * the Go digest differs from the digest recomputed independently from the AMD ABI definition
 //     (c04RefDigest) for the sections / reset vector / vCPU count / product the generator put in;
 //   * Go accepts an image whose SNP metadata is malformed in one of the ways the property names;
+//   * Go returns a digest (LaunchDigest) or a Measurements map (UnsignedSnp) for a product value outside
+//     {Milan, Genoa} — a product without a known address width has no launch digest (the product-check fix);
+//     conversely a supported product with >= 1 vCPU is never refused for its product;
 //   * two calls on the same input differ, or the image bytes change;
 //   * a repository-pinned vector is not reproduced; a panic.
 
@@ -94,8 +97,28 @@ func c04LD(c *Ctx, stream string, fw []byte, vcpus int, product int, known *c04K
 	default:
 		impl = "ok " + hx(d1) + " " + hx(d1)
 		c.Count("outcome:ok")
-		if _, ok := c04Widths[product]; !ok {
-			c.Count("observation:digest-for-unsupported-product")
+	}
+	// the product clause, on the implementation alone
+	if !panicked {
+		_, supported := c04Widths[product]
+		switch {
+		case !supported && e1 == nil:
+			c.Find("c04/sev.LaunchDigest/digest-for-unsupported-product",
+				fmt.Sprintf("a digest (%x) was returned for product value %d, which has no address width (not Milan, not Genoa): the VMSA pages of that chain sit at GPA 0, the launch digest of no AMD product", d1, product), replay)
+		case !supported && vcpus >= 1 && c04Classify(e1) != "product":
+			// refused, but for something else: the refusal must not depend on the image (a real OVMF layout got
+			// "address range is larger than the product can represent" before the repair)
+			c.Find("c04/sev.LaunchDigest/unsupported-product-not-named",
+				fmt.Sprintf("product value %d has no address width, but the call failed with %q instead of naming the product", product, c04Classify(e1)), replay)
+		case supported && e1 != nil && c04Classify(e1) == "product":
+			c.Find("c04/sev.LaunchDigest/supported-product-refused",
+				fmt.Sprintf("product value %d (Milan = 1, Genoa = 2) was refused as unsupported", product), replay)
+		}
+		if !supported {
+			c.Count(fmt.Sprintf("product:unsupported/%d", product))
+			if vcpus >= 1 {
+				c.Count("oracle:unsupported-product-refused")
+			}
 		}
 	}
 	if !panicked {
@@ -127,7 +150,9 @@ func c04LD(c *Ctx, stream string, fw []byte, vcpus int, product int, known *c04K
 			c.Count("malformed:" + clause)
 		}
 	}
-	nontrivial := !panicked && (e1 == nil || c04LateClasses[c04Classify(e1)])
+	// a refusal for the product of an image the generator laid out itself is a non-trivial case as well: the
+	// property's clause "no digest for a product without an address width" is exercised on a measurable image
+	nontrivial := !panicked && (e1 == nil || c04LateClasses[c04Classify(e1)] || (known != nil && c04Classify(e1) == "product"))
 	c.Case(op, impl, nontrivial)
 }
 
@@ -165,8 +190,12 @@ func c04SNP(c *Ctx, stream string, fw []byte, family, image string, familyOk, im
 		}
 		impl = "ok " + strings.Join(parts, ",")
 		c.Count(fmt.Sprintf("snp:ok/%d-measurements", len(keys)))
+		if _, supported := c04Widths[product]; !supported {
+			c.Find("c04/sev.UnsignedSnp/measurements-for-unsupported-product",
+				fmt.Sprintf("%d measurements were returned for product value %d, which has no address width", len(keys), product), op)
+		}
 	}
-	c.Case(op, impl, !panicked && err == nil)
+	c.Case(op, impl, !panicked && (err == nil || (familyOk && imageOk && c04Classify(err) == "product")))
 }
 
 // c04VMSA compares sev.PutVmsa on the reset state (BSP, or AP with the given reset vector).
@@ -325,7 +354,7 @@ func c04Vcpus(r *Rng) int {
 func c04Product(r *Rng) int {
 	switch r.Intn(8) {
 	case 0:
-		return []int{0, 3, 7}[r.Intn(3)]
+		return []int{0, 3, 7, 255}[r.Intn(4)]
 	case 1, 2, 3:
 		return 2
 	default:
@@ -432,12 +461,12 @@ func runC04(c *Ctx) {
 		}
 		c.Count("gen:lean-example")
 	}
-	// the witnesses of C04_unsupported_product_witness: 8 KiB images (metadata 4096 bytes from the end) under
+	// the witnesses of C04_old_unsupported_product_witness: 8 KiB images (metadata 4096 bytes from the end) under
 	// product values that are not keys of sev.bitWidth (UNKNOWN 0, Turin 3 — the value `--snp_product Turin`
-	// yields — and 7), next to Milan and Genoa.  Not an oracle clause (the property quantifies over the
-	// supported products): the outcome is compared with the model, whose behaviour for these values is
-	// characterised by the theorem C04_unsupported_product_behaviour; the histogram records how often the real
-	// code returned a digest for an unsupported product.
+	// yields — 7 and 255), next to Milan and Genoa.  Before the product-check fix the real code returned a digest with the VMSA
+	// pages at GPA 0 for "wide" and a range error for "two-page" and the 4 KiB example; now each must be refused
+	// for the product (direct oracle digest-for-unsupported-product / unsupported-product-not-named, and the
+	// model line `reject=product`, theorem C04_rejects_unsupported_product).
 	wideSecs := []c04Sec{{0x80D000, 0x2000, 2}, {0x800000, 0x9000, 1}, {0x80F000, 0x2000, 3}, {0x80B000, 0x2000, 4}}
 	for _, w := range []struct {
 		name string
@@ -445,14 +474,14 @@ func runC04(c *Ctx) {
 	}{{"wide", wideSecs}, {"two-page", exSecs}} {
 		fw := c04Standard(0x2000, 0x80b004, w.secs, 0x1000).build()
 		c.Case("c04 op=example name="+w.name, "ok "+hx(fw), true)
-		for _, p := range []int{0, 3, 7, 1, 2} {
+		for _, p := range []int{0, 3, 7, 255, 1, 2} {
 			for _, v := range []int{1, 4} {
 				c04LD(c, "c04", fw, v, p, &c04Known{w.secs, 0x80b004}, "lean-example:"+w.name)
 			}
 		}
 		c.Count("gen:lean-example")
 	}
-	for _, p := range []int{0, 3} {
+	for _, p := range []int{0, 3, 7, 255} {
 		c04LD(c, "c04", c04Standard(0x1000, 0x80b004, exSecs, 0).build(), 1, p, &c04Known{exSecs, 0x80b004}, "lean-example:base")
 	}
 
@@ -470,7 +499,7 @@ func runC04(c *Ctx) {
 	base.fill, base.fillSeed = 2, 5
 	bfw := base.build()
 	for _, v := range []int{-1, 0, 1, 2, 3, 4, 8, 16, 24, 32, 48, 64, 80, 96, 112, 128, 224, 240, 255} {
-		for _, p := range []int{1, 2, 0, 3} {
+		for _, p := range []int{1, 2, 0, 3, 7, 255} {
 			if !c.Quick() || v <= 8 || p == 1 || v == 255 {
 				c04LD(c, "c04", bfw, v, p, &c04Known{base2secs(base), 0x80b004}, "enum")
 				c.Count("gen:enum")
@@ -533,6 +562,19 @@ func runC04(c *Ctx) {
 
 	// (6) UnsignedSnp
 	okID, badID := "87654321-0001-0002-0003-123456789abc", "not-a-guid"
+	// every unsupported product value on a measurable image, all counts / one count: no Measurements map
+	// (C04_unsigned_snp_rejects_unsupported_product); Milan and Genoa next to them
+	{
+		fw := c04Standard(0x2000, 0x80b004, wideSecs, 0x1000).build()
+		for _, p := range []int{0, 3, 7, 255, 1, 2} {
+			for _, vm := range []uint32{0, 1, 4} {
+				if vm == 0 && p == 2 && c.Quick() {
+					continue
+				}
+				c04SNP(c, "c04", fw, okID, okID, true, true, vm, p)
+			}
+		}
+	}
 	for i := 0; i < c.N(14, 120); i++ {
 		secs := c04ValidSecs(r)
 		if r.Intn(5) == 0 {
